@@ -265,3 +265,60 @@ CONTRACTS = {
     "ravel2": lambda: ravel_contract(2),
     "ravel3": lambda: ravel_contract(3),
 }
+
+
+# ---------------------------------------------------------------------------------------------
+# offset_labels(labels, ngroups): per-row offsetting of codes (C08)
+# ---------------------------------------------------------------------------------------------
+
+
+def offset_contract():
+    from ..pyvc.arr2 import Arr2
+
+    def params(ex):
+        L = z3.Function("labels2d", I, I, I)
+        return {"labels": Arr2(z3.Int("rows"), z3.Int("cols"), lambda r, c: L(r, c), sort=I, name="labels"), "ngroups": z3.Int("ngroups")}
+
+    def requires(ex, env):
+        lab = env["labels"]
+        r, c = fresh("r"), fresh("c")
+        return [lab.rows >= 1, lab.cols >= 1, env["ngroups"] >= 1,
+                z3.ForAll([r, c], z3.Implies(z3.And(in_range(r, 0, lab.rows), in_range(c, 0, lab.cols)), z3.And(lab.at(r, c) >= -1, lab.at(r, c) < env["ngroups"])))]
+
+    def ensures(ex, env, res):
+        e = env["__entry__"]
+        lab, ng = e["labels"], e["ngroups"]
+        off, size = res
+        r, c = fresh("r"), fresh("c")
+        inb = z3.And(in_range(r, 0, lab.rows), in_range(c, 0, lab.cols))
+        return [
+            ("shape", z3.And(off.rows == lab.rows, off.cols == lab.cols)),
+            ("size", size == lab.rows * ng),
+            ("missing_kept", z3.ForAll([r, c], z3.Implies(z3.And(inb, lab.at(r, c) == -1), off.at(r, c) == -1))),
+            ("row_offset", z3.ForAll([r, c], z3.Implies(z3.And(inb, lab.at(r, c) != -1), off.at(r, c) == r * ng + lab.at(r, c)))),
+            # every offset code lies in the block of slots of its own row: nothing leaks between rows (with RAVEL_INJ: codes of different rows differ)
+            ("own_row_block", z3.ForAll([r, c], z3.Implies(z3.And(inb, lab.at(r, c) != -1), z3.And(off.at(r, c) >= r * ng, off.at(r, c) < (r + 1) * ng)))),
+        ]
+
+    return Contract(qualname="offset_labels", file="flox/core.py", prefix="C08.offset_labels", params=params, requires=requires, ensures=ensures, serves=("C08",),
+                    assumed=("numpy broadcasting of an (R, C) array with an (R, 1) column", "np.arange(R).reshape((R, -1)) is the column of row numbers", "math.prod"))
+
+
+CONTRACTS["offset"] = offset_contract
+
+
+def search_offset():
+    import itertools
+
+    import numpy as np
+
+    from flox.core import offset_labels
+
+    for R, C, ng in ((2, 2, 2), (2, 3, 2), (3, 2, 3)):
+        for vals in itertools.product(range(-1, ng), repeat=R * C):
+            lab = np.array(vals).reshape(R, C)
+            off, size = offset_labels(lab.copy(), ng)
+            want = np.where(lab == -1, -1, lab + np.arange(R)[:, None] * ng)
+            if size != R * ng or not np.array_equal(off, want):
+                return {"labels": lab.tolist(), "ngroups": ng}, f"offset_labels({lab.tolist()}, {ng}) -> {np.asarray(off).tolist()}, size {size}; expected {want.tolist()}, size {R * ng}"
+    return None
